@@ -229,6 +229,18 @@ func WriteRawTV(ctx context.Context, cc cache.Client, ds string, store cachepb.S
 }
 
 // WriteStore writes leaves directly into the CONFIG or STATE store.
+// DeleteFromStore removes the given leaf paths from a store (what a sync cycle does for configuration the device lost).
+func DeleteFromStore(ctx context.Context, cc cache.Client, ds string, store cachepb.Store, paths []IPath) error {
+	var dels [][]string
+	for _, p := range paths {
+		dels = append(dels, p.Slice(true))
+	}
+	if len(dels) == 0 {
+		return nil
+	}
+	return cc.Modify(ctx, ds, &cache.Opts{Store: store}, dels, nil)
+}
+
 func WriteStore(ctx context.Context, cc cache.Client, ds string, store cachepb.Store, c Conf) error {
 	if len(c) == 0 {
 		return nil
